@@ -18,7 +18,7 @@ structure MStep (Sym : Type) where
   model : Model Sym
   sym : Sym
 
-/-- the step is admitted by the crate (static assertions), the model honours its contract and
+/-- the step is allowed by the crate (static assertions), the model honours its contract and
     the symbol has non-zero probability -/
 def MStep.Valid {Sym : Type} (c : Cfg) (x : MStep Sym) : Prop :=
   RValid (cfgAt c x.B x.P) ∧ x.model.WellFormed x.P ∧ (x.model.enc x.sym).isSome
